@@ -100,6 +100,10 @@ structure Task where
   nNative : Nat := 0               -- ghost: `Task.cancel()` calls not made by a cancel scope
   nAnyio : Nat := 0                -- ghost: `Task.cancel()` calls made by scope deliveries
   nUncancel : Nat := 0             -- ghost: effective `uncancel()` calls (scope exits and user)
+  nUserUncancel : Nat := 0         -- ghost: those of them made by user code
+  nOwn : Nat := 0                  -- ghost: deliveries whose origin scope is hosted by this task
+  nForeign : Nat := 0              -- ghost: deliveries from origins hosted by other tasks
+  nDropped : Nat := 0              -- ghost: own deliveries never paid back (scope had no same-host parent)
   deriving Repr, Inhabited
 
 structure Scope where
